@@ -332,11 +332,58 @@ def commands(chk, repo):
             "rewrites the members of entries returned before") if aliased
            else "bytearray(...) allocated in the call on every path")
     it = repo.func(H + "TheDict.__iter__")
-    ok = bool(find("get_next_key(self.fd, self.key.stack)", it)) and bool(
-        find("get_next_key(self.fd, current)", it))
-    chk.ob("R09.4", H + "TheDict.__iter__", "first key by size, next keys "
-           "by the previous key", ok, it, "get_next_key(fd, size) / "
-           "get_next_key(fd, current)")
+    # iteration, by abstract execution against a model of the kernel's
+    # get_next_key (first key for a size, then the key after the one
+    # given): every key of the map is yielded once, as an object of its own
+    td = repo.cls(H + "TheDict")
+    st_ = repo.cls("ebpfcat.ebpf.Structure")
+    bad = []
+    for keys in ([], [b"\x01\x00\x00\x00"],
+                 [b"\x00\x00\x00\x00", b"\x05\x00\x00\x00",
+                  b"\x02\x00\x00\x00"],
+                 [bytes([i, 0, 0, 7]) for i in range(9)]):
+        calls = []
+
+        def gnk(fd, key, _keys=keys, _calls=calls):
+            _calls.append((fd, key))
+            if isinstance(key, int):
+                if key != 4:
+                    raise Raised("OSError: key size")
+                i = 0
+            else:
+                kb = bytes(key)
+                i = _keys.index(kb) + 1 if kb in _keys else 0
+            if i >= len(_keys):
+                raise Raised("StopIteration")
+            return bytearray(_keys[i])
+        me = Obj(td, {"fd": 9, "key": Obj(st_, {"stack": 4, "data":
+                                                bytearray(4)})})
+        ev_ = Evaluator(repo, td.module, td, funcs={
+            "get_next_key": gnk})
+        try:
+            got = ev_.call_function(it, [me], cls=td)
+        except Raised as e:
+            if keys or "StopIteration" not in e.what:
+                bad.append(f"{len(keys)} keys: raises {e.what}")
+            continue
+        except Unknown as e:
+            raise AnalysisError(f"{H}TheDict.__iter__: cannot be "
+                                f"evaluated: {e}")
+        datas = [bytes(o.fields.get("data", b"")) if isinstance(o, Obj)
+                 else o for o in (got or [])]
+        if datas != keys:
+            bad.append(f"{len(keys)} keys: yields {datas[:4]}..., the map "
+                       f"holds {keys[:4]}...")
+        elif len({id(o) for o in got}) != len(got) or any(
+                o is me.fields["key"] for o in got):
+            bad.append(f"{len(keys)} keys: the same key object is yielded "
+                       f"more than once")
+        elif any(fd != 9 for fd, _ in calls):
+            bad.append("another map is iterated")
+    chk.ob("R09.4", H + "TheDict.__iter__", "every key of the map is "
+           "yielded once, first key by size, next keys by the previous key "
+           "(abstract execution against a model of get_next_key)", not bad,
+           it, "; ".join(bad[:2]) or "maps of 0, 1, 3 and 9 keys")
     pp = repo.func(H + "TheDict.pop")
     ok = bool(find("lookup_and_delete_elem(self.fd, key.data, "
                    "self.value.stack)", pp))
